@@ -1,15 +1,24 @@
-"""Import hdl21 from /repo's working tree with the verification hooks enabled."""
+"""Import hdl21 from /repo's working tree with the verification hooks enabled.
+
+VERIF_REPO (default /repo) lets a scratch git worktree of the repository stand in for /repo, so that a seeded change can be
+evaluated without touching /repo while another run is reading it.  Every registered command runs with it unset.
+"""
 import os
 import sys
 
+REPO = os.path.realpath(os.environ.get("VERIF_REPO", "/repo"))
 os.environ.setdefault("HDL21_VERIF", "1")
 os.environ.setdefault("PYTHONHASHSEED", "0")
-for p in ("/repo/pdks/Sky130", "/repo/pdks/Gf180", "/repo/pdks/Asap7"):
-    if p not in sys.path:
+for p in ("pdks/Sky130", "pdks/Gf180", "pdks/Asap7"):
+    p = os.path.join(REPO, p)
+    if REPO != "/repo":
+        if p not in sys.path:
+            sys.path.insert(0, p)
+    elif p not in sys.path:
         sys.path.append(p)
-if "/repo" not in sys.path:
-    sys.path.insert(0, "/repo")
+if sys.path[0] != REPO:
+    sys.path.insert(0, REPO)
 
 import hdl21 as h  # noqa: E402
 
-assert os.path.realpath(h.__file__).startswith("/repo/"), f"hdl21 imported from {h.__file__}, not /repo"
+assert os.path.realpath(h.__file__).startswith(REPO + "/"), f"hdl21 imported from {h.__file__}, not {REPO}"
